@@ -117,7 +117,9 @@ UNIT = VUnit(
     trusted=["the AST enums are copied from the source with leaf payloads opaque; slices are Vecs; the three push loops are cut out as calls that push every element with the given depth (R11)",
              "that 256 parser activations and a 512-deep tree fit the native stack with every frame size of the resolver, the analysis passes and a debug build is NOT decided (no notion of frame size): measured instead, DESIGN.md 0.5"],
     callers_closed=[("parse_expression_unguarded", "src/syntax/parser.rs", ["parse_expression"]),
-                    ("parse_block_body_unguarded", "src/syntax/parser.rs", ["parse_block_body"])],
+                    ("parse_block_body_unguarded", "src/syntax/parser.rs", ["parse_block_body"]),
+                    # the call machinery recurses into callee bodies: it is entered from eval_expr only, so every cycle of calls passes a probe
+                    ("eval_function_call", "src/runtime.rs", ["eval_expr"])],
     items=[
         Const("MAX_PARSE_NESTING"), Const("MAX_TREE_DEPTH"),
         Const("KIBI", source="src/helpers.rs"), Const("MEBI", source="src/helpers.rs"), Const("STACK_BUDGET", source="src/runtime.rs", nth=2),   # the non-wasm definition
